@@ -118,6 +118,28 @@ def real_optimize(sig, muts, passes=2):
     return res, objs
 
 
+def model_explains_optimiser(ctx, spec, seq):
+    """does the optimiser treat this sequence exactly as its Lean transliteration does?  Attributing a
+    batched-only difference to the optimiser findings recorded under C03 (F20/F21/F24) presupposes it."""
+    if not ctx.driver:
+        return True
+    try:
+        sig = sigs.sig_from_spec(spec)
+        existing = [m['name'] for a in spec['apps'] if a['id'] == 'vapp' for m in a['models']]
+        out = ctx.driver.ask([{'op': 'optimize', 'existing': existing,
+                               'copies': bool(ctx.variant.get('optimizer_copies')),
+                               'mutations': [norm_mut(sigs.model_mutation(m)) for m in seq]}])[0]
+        real, _ = real_optimize(sig, seq, passes=1)
+    except Exception:
+        return True
+    r1 = real[0]
+    if out is None:
+        return True
+    if 'err' in r1:
+        return out.get('err') == r1['err']
+    return 'out' in out and [norm_mut(x) for x in r1['out']] == out['out']
+
+
 def norm_mut(mj):
     mj = {k: v for k, v in mj.items() if k not in ('py_value', 'sql', 'model_name_attr')}
     return mj
